@@ -612,7 +612,7 @@ def stream_writer(ctx, mols):
             snap(m)
         if rng.random() < 0.35:
             decorate_fields(rng, m)
-        m.name = rng.choice(['', '', rand_text(rng, 1, 30), ' padded ', rand_text(rng, 1, 10, SAFE)])
+        m.name = rng.choice(['', '', rand_text(rng, 1, 30), ' padded ', rand_text(rng, 1, 10, SAFE), 'see M  END', 'x $$$$', 'a >  <b>', 'p $MFMT $DTYPE'])
         m.meta.clear()
         m.meta.update(rand_meta(rng, wf=rng.random() < 0.7))
         mapping = rng.random() < 0.85
@@ -1246,7 +1246,7 @@ def make_objects(rng, mols, fmt, k):
         else:
             o = rng.choice(mols)[1].copy()
             o.meta.clear()
-        o.name = rng.choice(['', rand_text(rng, 1, 20, SAFE).strip()])
+        o.name = rng.choice(['', rand_text(rng, 1, 20, SAFE).strip(), 'see M  END', 'x $$$$ y', 'a >  <b>', 'p $MFMT $DTYPE $DATUM'])
         md = rand_meta(rng, wf=True)
         if in_meta_domain(md, fmt):
             o.meta.update(md)
@@ -1318,6 +1318,11 @@ def correspond(ctx):
     stream_testfiles(ctx)
     stream_meta(ctx, 300 if ctx.quick else 4000)
     stream_roundtrip(ctx, mols, 25 if ctx.quick else 400)
+    # core starts the failing-input search only when no failure at all was recorded; failures that belong to known
+    # findings (reported by the RT stream as well as by the standing probes) must not suppress it
+    known = {f['signature'] for f in core.load_findings('C11') if f['status'] == 'known'}
+    if ctx.broken and ctx.failures and all(f.signature in known for f in ctx.failures):
+        search(ctx)
 
 
 SEARCH_ALWAYS_IN_THOROUGH = False
@@ -1327,6 +1332,9 @@ def search(ctx):
     """failing-input search: property-level oracles on the real code (never the Lean model), seeded from the
     disagreeing cases' streams; larger budget than the RT stream that always runs."""
     import time
+    if _state.get('searched'):
+        return
+    _state['searched'] = True
     rng = ctx.rng
     t_end = time.time() + (60 if ctx.quick else 600)
     mols = [(t, m) for t, m in molecules(ctx, 40 if ctx.quick else 300) if in_stereo_domain(m) and max(m) <= 999]
